@@ -58,6 +58,16 @@ SHORT = {
  "C15_3": "`partial_cmp` answers `Some(Equal)` at once when both sides are the same object",
  "C18_3": "`grow` checks for a null result only when the capacity increases",
  "C19_3": "in-place visitor reserves `len - hint` instead of `hint - len`",
+ "C01_5": "`extend_from_within`: an excluded start bound is treated as included",
+ "C03_5": "`make_layout` rounds header + elements once (block smaller than the storage written)",
+ "C05_5": "DrainFilter creation keeps the length for element types without drop glue",
+ "C07_5": "`resize` reserves `new_len` instead of `new_len - len` (and loops `len..new_len`)",
+ "C08_5": "Splice's regrow uses the temporary vector's alignment",
+ "C11_5": "`insert` grows a full vector BEFORE rejecting an out-of-range index",
+ "C12_5": "`clone` bit-copies when the element type has no drop glue (T::clone never runs)",
+ "C16_3": "`unsafe impl<T: Send> Sync for IntoIter<T>` (was `T: Sync`)",
+ "C17_5": "`extend` trusts an exact size hint: one reserve, then unchecked writes",
+ "C19_4": "`Serialize` announces `capacity()` as the sequence length",
  "C02_5": "Splice: `remaining_pos_` field removed, tail start taken from `drain_end_`",
  "C02_6": "new `IntoIter::nth` override whose overshoot path forgets the remaining elements",
  "C03_3": "Splice guard keeps the cached tail POINTER across `grow` (read of the released block)",
